@@ -10,7 +10,7 @@ QUICK_N = 500
 THOROUGH_N = 4000
 ERRCLASS = False          # pinned classes (ValueError, SequencingError) are checked inside the deferred comparison
 RULE = ("consistent sequences of 1-3 positions and 1-3 channels (channel order != sorted order, blueprint and raw-array "
-        "channels), amplitude in {0.5,1,2,3,4.5}, offset in {0,+-0.25,1,-2}; in 40% of the cases one channel/position is a "
+        "channels), amplitude in {0.5,1,2,3,4.5,1+2^-12,2+2^-10}, offset in {0,+-0.25,1,-2,253/2048,-63/2048}; in 40% of the cases one channel/position is a "
         "constant ramp whose dyadic level is inside / exactly at / 2^-20 outside the top or bottom of the channel range; "
         "sequencing values drawn from {bound-1, bound, bound+1} of the 8 instrument bounds and random in-range values; "
         "delays/filters in 20%; observed: the whole package [:], plus an index or slice expression (in and out of range); "
@@ -34,8 +34,9 @@ def case(g, tier, ci):
     SR = r.choice([1, 10, 100, 1e3, 1e6])
     chans = r.sample([3, 1, 2, "B", "A"], r.randint(1, 3))
     P = r.randint(1, 3)
-    amps = {ch: r.choice([0.5, 1, 2, 3, 4.5]) for ch in chans}
-    offs = {ch: r.choice([0, 0.25, -0.25, 1, -2]) for ch in chans}
+    # (dyadic values, some with digits below a millivolt: the range is the one that was set, not a rounded one)
+    amps = {ch: r.choice([0.5, 1, 2, 3, 4.5, 1 + 2.0 ** -12, 2 + 2.0 ** -10]) for ch in chans}
+    offs = {ch: r.choice([0, 0.25, -0.25, 1, -2, 253 / 2048, -63 / 2048]) for ch in chans}
     ops = [{"op": "sq.new", "id": "s"}, {"op": "sq.setSR", "id": "s", "v": enc(SR)}]
     boundary = r.random() < 0.4
     adding = list(range(1, P + 1))
